@@ -494,8 +494,9 @@ class StepExec:
         sub.fresh, sub.requires, sub.externals, sub.loop_invs, sub.find_callee = self.fresh, self.requires, self.externals, {}, self.find_callee
         sub.depth = self.depth + 1
         sub.silent = 1
+        is_closure = isinstance(v, ast.Name) and v.id in self.closures
         try:
-            sub.run_function({prog_param: None})
+            sub.run_function({prog_param: None}, callable_param=is_closure)      # a nested function handed on: each call of it counts
         except Unsupported:
             return None
         sc = sub.ctxs[prog_param]
@@ -574,6 +575,8 @@ class StepExec:
         for h in sub.hyps:
             self.hyps.append(z3.substitute(h, *mapping) if mapping else h)
         self.atom_birth.update(sub.atom_birth)
+        if is_closure:
+            delta = delta * self.closures[v.id][cname]
         self.note(f"line {line}: {callee}() has no declared step contract; inferred from its body: steps <= {str(z3.simplify(delta))[:160]}")
         return self.advance(st, cname, delta, line, cond)
 
@@ -688,6 +691,14 @@ class StepExec:
     def effects(self, node: Optional[ast.AST], st: State, line: int) -> State:
         if node is None:
             return st
+        for sub in ast.walk(node):
+            if isinstance(sub, (ast.ListComp, ast.SetComp, ast.DictComp, ast.GeneratorExp, ast.Lambda)):
+                for n in ast.walk(sub):
+                    if isinstance(n, ast.Name) and n.id in self.ctxs and isinstance(n.ctx, ast.Load) and not (isinstance(sub, ast.GeneratorExp) and False):
+                        # stepped an unknown number of times (once per item / per call of the lambda)
+                        if any(isinstance(c, ast.Call) and ((isinstance(c.func, ast.Attribute) and isinstance(c.func.value, ast.Name) and c.func.value.id == n.id)
+                                                           or any(isinstance(a, ast.Name) and a.id == n.id for a in list(c.args) + [k.value for k in c.keywords])) for c in ast.walk(sub)):
+                            self.ctxs[n.id].tainted = self.ctxs[n.id].tainted or f"used inside a comprehension or lambda at line {line}"
         for c in self.calls_in(node):
             st = self.call_effect(c, st, line)
         return st
@@ -800,6 +811,14 @@ class StepExec:
         if isinstance(s, (ast.Assign, ast.AnnAssign)):
             st = self.effects(s.value, st, ln)
             targets = s.targets if isinstance(s, ast.Assign) else [s.target]
+            if s.value is not None and not (isinstance(s.value, ast.Call) or (isinstance(s.value, ast.Dict))):
+                # the Progress object gets a second name / is stored somewhere: steps taken through that are not seen
+                for n in ast.walk(s.value):
+                    if isinstance(n, ast.Name) and n.id in self.ctxs and not any(isinstance(c, ast.Call) and n in ast.walk(c) for c in ast.walk(s.value)):
+                        self.ctxs[n.id].tainted = self.ctxs[n.id].tainted or f"aliased or stored by the assignment at line {ln}"
+            for t in targets:
+                if isinstance(t, (ast.Attribute, ast.Subscript)) and isinstance(s.value, ast.Name) and s.value.id in self.ctxs:
+                    self.ctxs[s.value.id].tainted = self.ctxs[s.value.id].tainted or f"stored in {ast.unparse(t)} at line {ln}"
             if len(targets) == 1 and isinstance(targets[0], ast.Name):
                 return self.assign(targets[0].id, s.value, st)
             st = st.copy()
